@@ -81,6 +81,29 @@ void explore07(Options const& o, std::vector<Shim*> const&, std::vector<Shim*> c
         });
       u64 n = static_cast<u64>(e.A.size()) * nb; rec.add_states(n, n, n);
       }
+    // dense windows: every raw value of a window of 2^18 (quick) / 2^22 (thorough) at several magnitudes, for every unary entry point
+    {
+    static const char* UN3[U_COUNT] = { "operator- (unary)", "abs", "isnan", "floor", "ceil", "sin", "cos", "tan", "atan", "asin", "acos", "sqrt", "detail::sqrt_abacus", "detail::sqrt_std_math",
+                                        "sqrt_aprox", "atan_index_aprox", "atan_aprox", "sin_angle(fixed_t)", "cos_angle(fixed_t)", "tan_angle(fixed_t)",
+                                        "x += x (same object)", "x -= x (same object)", "x *= x (same object)", "x /= x (same object)" };
+    i64 W = th ? (1ll << 22) : (1ll << 18);
+    std::vector<i64> bases { -W / 2, 1ll << 32, -(1ll << 32) - W, (1ll << 40) + 12345, 1ll << 47, -(1ll << 47) - W, (1ll << 62) + 999, FX_MAX - W, FX_LOWEST };
+    for( int op = 0; op < U_COUNT; ++op ) for( i64 base : bases )
+      {
+      const i64 B = 1 << 12; size_t nb = static_cast<size_t>(W / B);
+      parallel_blocks(nb, o.threads, [&](size_t blk, int) {
+        std::vector<i64> out(B); Event ev; i64 x0 = base + static_cast<i64>(blk) * B;
+        if( run_checked(s, [&]{ s->fm_un_range(op, x0, B, out.data()); }, ev) ) return;
+        LocalViol lv(rec); ClsCache cc(rec);
+        for( i64 k = 0; k < B; ++k )
+          { i64 x = x0 + k; Event e2; if( run_checked(s, [&]{ s->fm_un(op, x); }, e2) ) continue;
+            int c = cc.get("C07." + sanitize_cls(UN3[op]) + "." + e2.kind);
+            lv.hit(c, (static_cast<u64>(ci) << 56) | (0xffcull << 40) | (static_cast<u64>(op) << 32) | static_cast<u64>(static_cast<uint32_t>(x)), [=]{ Example xm; xm.entry = UN3[op]; xm.cfg = s->name; xm.shape = "dense window"; xm.inputs = {{"x", to_s(x)}};
+              xm.expected = "returns normally without undefined behaviour"; xm.got = e2.where; xm.rcase = "entry"; xm.rin = { UN3[op], to_su(static_cast<u64>(x)), "0" }; return xm; }); }
+        });
+      rec.add_states(static_cast<u64>(W), static_cast<u64>(W), static_cast<u64>(W));
+      }
+    }
     // sin/cos_angle_aprox under the sanitizer (the out-of-bounds index of std::array is reported by -fsanitize=bounds before the read)
     {
     std::vector<i64> ds; for( i64 x : S_set(6,4,true,true) ) ds.push_back(static_cast<int32_t>(static_cast<uint32_t>(static_cast<u64>(x))));
